@@ -134,6 +134,20 @@ def run(ctx, res):
         if expansion_size(g) <= 40 and mapcase.yarrrml_ok(g) and any(t.get('nonasserted') and len(t.get('poms', [])) >= 2 for t in g['doc']) and not family.triggers(g):
             g['spelling'] = 'yarrrml'
             cases.append(g); found += 1
+    # directed: a quoted triples map joined to the SAME source on one same-named column whose values repeat, the quoted triple built from other columns: each
+    # record quotes the triples of every record sharing the key (a join, not "the same record").  Position x asserted x mode taken in turn.
+    for i in range(ctx.scale(8, 48)):
+        rows = [[v, k, 'z%d' % j] for j, (v, k) in enumerate([('a', 'k1'), ('b', 'k1'), ('c', 'k2'), ('d', 'k1'), ('e', None)][:3 + i % 3])]
+        src = {'key': 'S0', 'kind': 'csv', 'cols': ['c1', 'c2', 'c3'], 'rows': rows}
+        q0 = {'id': EX + 'tm/Q0', 'src': 'S0', 'nonasserted': (i // 2) % 2 == 0, 'subj': tm('templ', EX + 's/{c1}'), 'sjoins': [], 'classes': [], 'sgraphs': [],
+              'poms': [{'preds': [tm('const', EX + 'p/p')], 'objs': [{'m': tm('ref', 'c3', 'lit'), 'lang': None, 'dt': None, 'joins': []}], 'graphs': []}]}
+        if i % 2 == 0:
+            q1 = {'id': EX + 'tm/Q1', 'src': 'S0', 'nonasserted': False, 'subj': tm('quoted', q0['id']), 'sjoins': [['c2', 'c2']], 'classes': [], 'sgraphs': [],
+                  'poms': [{'preds': [tm('const', EX + 'p/seenBy')], 'objs': [{'m': tm('templ', EX + 'o/{c1}'), 'lang': None, 'dt': None, 'joins': []}], 'graphs': []}]}
+        else:
+            q1 = {'id': EX + 'tm/Q1', 'src': 'S0', 'nonasserted': False, 'subj': tm('templ', EX + 't/{c1}'), 'sjoins': [], 'classes': [], 'sgraphs': [],
+                  'poms': [{'preds': [tm('const', EX + 'p/about')], 'objs': [{'m': tm('quoted', q0['id']), 'lang': None, 'dt': None, 'joins': [['c2', 'c2']]}], 'graphs': []}]}
+        cases.append({'cfg': {'nquads': i % 4 == 3, 'mode': ['NO', 'PARTIAL-AGGREGATIONS', 'MAXIMAL'][i % 3]}, 'sources': [src], 'doc': [q1, q0] if i % 2 else [q0, q1]})
     family.run_family(ctx, res, cases, features, style_fn=style_fn)
 
 
